@@ -784,7 +784,7 @@ def kill_child(directory, calls, kill_n=None, kind='cache', settings=None, now=1
                 clock.on_sleep = None
                 it = Interp(0, obj, kind, calls, lambda: count[0],
                             on_done=lambda rec: _send(wfd, {'rec': {k: v for k, v in rec.items() if k != 'call'}}),
-                            on_start=lambda j, call, depth: _send(wfd, {'start': j, 'depth': depth}))
+                            on_start=lambda j, call, depth: _send(wfd, {'start': j, 'depth': depth, 'e0': count[0]}))
                 tracer.enable(True)
                 it.run()
                 tracer.enable(False)
@@ -832,6 +832,7 @@ def kill_child(directory, calls, kill_n=None, kind='cache', settings=None, now=1
         elif 'start' in m:
             out['started'] = m['start']
             out['started_depth'] = m['depth']
+            out['started_e0'] = m.get('e0')
         elif 'done' in m:
             out['done'] = True
             out['nevents'] = m['nevents']
